@@ -383,7 +383,11 @@ class Engine:
             for key, (iv, p) in self.math_cache.items():
                 if key[0] == "ptrenc" and iv.as_long() == c:
                     return p
-        return Opaque("ptrval", tag=(v != 0))
+        o = Opaque("ptrval", tag=(v != 0))
+        # remember the integer encoding: storing this pointer value again (struct copy a[j] = a[j+1]) must write
+        # the same value back, not a fresh unknown (math_cache keeps `o` alive, so id(o) stays unique)
+        self.math_cache[("opq", id(o))] = (v, o)
+        return o
 
     # -- memory access ---------------------------------------------------------
     def _lazy_field(self, sobj, fname, state):
